@@ -87,6 +87,10 @@ def _case(draw):
         c["g"].append([{v: sg * tiny, u: -1.0}, float(draw(st.integers(0, 3)))])
         c["a"].append([{u: 1.0}, float(w[u] + draw(st.sampled_from([1, 4])))])
         cls = cls + "+tiny-coefficient"
+    if cls.startswith(("boxed", "wild")) and draw(st.integers(0, 9)) == 0:
+        # a constraint without variables that holds (0 <= c, c >= 0), as left by a rename that cancels every variable
+        (c["g"] if draw(st.booleans()) else c["a"]).append([{}, float(draw(st.sampled_from([0, 0, 1, 2])))])
+        cls = cls + "+varfree-satisfied"
     k = draw(st.integers(1, min(3, len(names))))
     ovars = draw(st.lists(st.sampled_from(names), min_size=k, max_size=k, unique=True))
     obj = [[v, draw(st.sampled_from([1, -1, 2, -2, 3, -3, 5]))] for v in ovars]
